@@ -205,6 +205,17 @@ def run(ctx, res):
     ip.models["std::io::_print"] = m_print
     ip.primitives[k_stdout[0]] = p_stdout
     idx_var = bv.data_bv("i", 32)
+    carried = set()
+    for b_ in loops[header]:
+        bl_ = body["blocks"][b_]
+        for s_ in bl_["st"]:
+            if s_["k"] == "assign" and not s_["p"]["p"]:
+                carried.add(s_["p"]["l"])
+            if s_["k"] == "assign" and s_["r"]["k"] == "ref" and s_["r"].get("mut") and not any(pr["k"] == "deref" for pr in s_["r"]["p"]["p"]):
+                carried.add(s_["r"]["p"]["l"])
+        t_ = bl_["term"]
+        if t_["k"] == "call" and not t_["dest"]["p"]:
+            carried.add(t_["dest"]["l"])
 
     def at_header(ip_, st, fr, n):
         # locate the range and the vector among the locals of the activation
@@ -223,6 +234,14 @@ def run(ctx, res):
             end = st.mem[rng_root].fields[1]
             st.mem[rng_root] = Agg([Int(idx_var), end])
             st.mem[vec_root] = Opaque("bytevec", ("prefix", idx_var))
+            # every other integer local assigned (or mutably borrowed) inside the loop is loop-carried: arbitrary value
+            for l_ in sorted(carried):
+                key_ = ("f", fr.fid, l_)
+                if key_ in (rng_root, vec_root):
+                    continue
+                cur_ = st.mem.get(key_)
+                if isinstance(cur_, Int):
+                    st.mem[key_] = Int(bv.seq_bv("carried_%d" % l_, len(cur_.bits)))
             snap["roots"] = (rng_root, vec_root)
             st.add_eff(("loop-head",))
             return "continue"
